@@ -6,7 +6,7 @@ use des::prelude::*;
 use proptest::prelude::*;
 use serde::{Deserialize, Serialize};
 use std::cell::RefCell;
-use std::collections::BTreeMap;
+use std::collections::{BTreeMap, BTreeSet, BinaryHeap, LinkedList, VecDeque};
 use std::fmt::Debug;
 use std::time::Duration as StdDuration;
 
@@ -415,17 +415,97 @@ impl BK for NonClone {
     }
 }
 
-pub const KINDS: usize = 36;
-pub const NONCLONE_KIND: u8 = 35;
+/// A deque whose storage wraps around the end of its ring buffer: the first `front` items are pushed to the front of
+/// a deque that already holds the rest (`as_slices().1` is non-empty whenever 0 < front < len).
+fn wrapped<T>(mut items: Vec<T>, front: usize) -> VecDeque<T> {
+    let front = front.min(items.len());
+    let tail = items.split_off(front);
+    let mut q = VecDeque::with_capacity(tail.len() + items.len() + 3);
+    q.extend(tail);
+    for h in items.into_iter().rev() {
+        q.push_front(h);
+    }
+    q
+}
+impl BK for VecDeque<u16> {
+    fn mk(seed: u64) -> Self {
+        wrapped((0..seed % 9).map(|i| seed.wrapping_add(i) as u16).collect(), (seed / 9 % 5) as usize)
+    }
+    fn want_len(seed: u64) -> usize {
+        2 * (seed % 9) as usize
+    }
+}
+impl BK for VecDeque<String> {
+    fn mk(seed: u64) -> Self {
+        wrapped((0..seed % 6).map(|i| s_of(seed.wrapping_add(i))).collect(), (seed / 6 % 4) as usize)
+    }
+    fn want_len(seed: u64) -> usize {
+        (0..seed % 6).map(|i| (seed.wrapping_add(i) % 23) as usize).sum()
+    }
+}
+impl BK for LinkedList<u16> {
+    fn mk(seed: u64) -> Self {
+        (0..seed % 7).map(|i| seed.wrapping_add(i) as u16).collect()
+    }
+    fn want_len(seed: u64) -> usize {
+        2 * (seed % 7) as usize
+    }
+}
+impl BK for BTreeSet<u16> {
+    fn mk(seed: u64) -> Self {
+        // distinct by construction
+        (0..seed % 7).map(|i| (seed % 1000) as u16 * 8 + i as u16).collect()
+    }
+    fn want_len(seed: u64) -> usize {
+        2 * (seed % 7) as usize
+    }
+}
+impl BK for BinaryHeap<u32> {
+    fn mk(seed: u64) -> Self {
+        (0..seed % 7).map(|i| (seed.wrapping_mul(i + 3) % 1000) as u32).collect()
+    }
+    fn want_len(seed: u64) -> usize {
+        4 * (seed % 7) as usize
+    }
+}
+impl BK for std::net::SocketAddr {
+    fn mk(seed: u64) -> Self {
+        let port = (seed >> 8) as u16;
+        if seed % 2 == 0 {
+            std::net::SocketAddr::from((std::net::Ipv4Addr::from(seed as u32), port))
+        } else {
+            std::net::SocketAddr::from((std::net::Ipv6Addr::from((seed as u128) << 17 | 1), port))
+        }
+    }
+    fn want_len(seed: u64) -> usize {
+        if seed % 2 == 0 {
+            6
+        } else {
+            18
+        }
+    }
+}
+impl BK for (u8, u16, u32) {
+    fn mk(seed: u64) -> Self {
+        (seed as u8, (seed >> 8) as u16, (seed >> 24) as u32)
+    }
+    fn want_len(_: u64) -> usize {
+        7
+    }
+}
+
+pub const KINDS: usize = 43;
+pub const NONCLONE_KIND: u8 = 42;
 const KIND_NAMES: [&str; KINDS] = [
     "u8", "u16", "u32", "i32", "u64", "i64", "u128", "usize", "i8", "f32", "f64", "bool", "char", "()", "String", "&str",
     "Option<u32>", "Option<String>", "Result<u16,String>", "Vec<u8>", "Vec<String>", "[u16;3]", "BTreeMap<u8,String>",
     "(u8,String)", "Box<u32>", "A(u32)", "B(u32)", "Named", "Unit", "En", "Gen<String>", "Gen<u32>", "ZstDrop", "Tok",
-    "Vec<Tok>", "NonClone",
+    "Vec<Tok>", "VecDeque<u16> (wrapped)", "VecDeque<String> (wrapped)", "LinkedList<u16>", "BTreeSet<u16>", "BinaryHeap<u32>",
+    "SocketAddr", "(u8,u16,u32)", "NonClone",
 ];
 /// kinds that share size and alignment with u32 (the "impostors")
 const LAYOUT_U32: [u8; 8] = [2, 3, 9, 12, 24, 25, 26, 31];
-const DROPPABLE: [u8; 4] = [33, 34, 35, 32];
+const DROPPABLE: [u8; 4] = [33, 34, NONCLONE_KIND, 32];
 
 macro_rules! with_kind {
     ($k:expr, $f:ident, $($arg:expr),*) => {
@@ -465,6 +545,13 @@ macro_rules! with_kind {
             32 => $f::<ZstDrop>($($arg),*),
             33 => $f::<Tok>($($arg),*),
             34 => $f::<Vec<Tok>>($($arg),*),
+            35 => $f::<VecDeque<u16>>($($arg),*),
+            36 => $f::<VecDeque<String>>($($arg),*),
+            37 => $f::<LinkedList<u16>>($($arg),*),
+            38 => $f::<BTreeSet<u16>>($($arg),*),
+            39 => $f::<BinaryHeap<u32>>($($arg),*),
+            40 => $f::<std::net::SocketAddr>($($arg),*),
+            41 => $f::<(u8, u16, u32)>($($arg),*),
             _ => $f::<NonClone>($($arg),*),
         }
     };
@@ -549,7 +636,8 @@ fn do_set(msg: &mut Message, kind: u8, seed: u64) {
        11 => bool, 12 => char, 13 => (), 14 => String, 15 => &'static str, 16 => Option<u32>, 17 => Option<String>,
        18 => Result<u16, String>, 19 => Vec<u8>, 20 => Vec<String>, 21 => [u16; 3], 22 => BTreeMap<u8, String>,
        23 => (u8, String), 24 => Box<u32>, 25 => A, 26 => B, 27 => Named, 28 => Unit, 29 => En, 30 => Gen<String>,
-       31 => Gen<u32>, 32 => ZstDrop, 33 => Tok, 34 => Vec<Tok>)
+       31 => Gen<u32>, 32 => ZstDrop, 33 => Tok, 34 => Vec<Tok>, 35 => VecDeque<u16>, 36 => VecDeque<String>,
+       37 => LinkedList<u16>, 38 => BTreeSet<u16>, 39 => BinaryHeap<u32>, 40 => std::net::SocketAddr, 41 => (u8, u16, u32))
 }
 
 // `Message::try_cast` needs `Send`; Tok-based kinds are Send (plain data).
@@ -822,7 +910,7 @@ impl Prop for C16 {
 
     fn rule() -> String {
         "proptest op sequences over 3 message slots: Set(kind,seed) | SetNonClonable | Clone | TryClone | TryCast<T'> | TryContent<T'> | TryContentMut<T'> | \
-         CanCast<T'> | Length | Drop | ClearBody with T, T' from 36 body types (primitives, strings, Option/Result, collections, arrays, tuples, Box, \
+         CanCast<T'> | Length | Drop | ClearBody with T, T' from 43 body types (primitives, strings, Option/Result, collections incl. deques with wrapped storage, linked lists, sets and heaps, socket addresses, arrays, tuples, Box, \
          derived tuple/named/unit structs, derived enum, derived generic struct, a ZST with Drop, instance-tracked droppable values, a non-clonable \
          type, and layout-compatible impostors A(u32)/B(u32)/u32/i32/f32/char/Box<u32>/Gen<u32>). Oracle: model (type tag, seed): read/cast succeeds \
          iff T' == tag and returns the stored value (Debug form); failed casts leave header and body intact; try_clone is Some iff clonable; after \
